@@ -115,6 +115,26 @@ def gen_dir(seed, tier, focus):
         elif kind == "immdir":
             ops.append(["immdir", [[draw_name(ch, W, ("i", i, j)), ch.pick(W, ("iobj", i, j), ["lit", "chk", "ssk", "ssk-ro", "dir0", "dir0-ro", "unknown-imm", "unknown", "immdir", "lit2"])]
                                    for j in range(ch.randint(W, ("inents", i), 0, 4))]])
+    if focus == "C20":
+        # directed rename/move situations (the random stream rarely lines them up): a move that must be refused because the
+        # destination name is taken (in another directory and in the same one), and a rename between two spellings of one name
+        for j in range(ch.randint(W, "ndirected", 0, 2)):
+            at = ch.randint(W, ("directed-at", j), 3, len(ops))
+            d1, d2 = ch.randrange(W, ("directed-d1", j), 3), ch.randrange(W, ("directed-d2", j), 3)
+            nm_ = ch.pick(W, ("directed-name", j), ["a", "b", "e\u0301", "\u00e9", "A\u030a", "o\u0300"])
+            what = ch.pick(W, ("directed-what", j), ["refused-move", "refused-move", "respell", "respell-dest"])
+            if what == "refused-move":
+                nm2 = ch.pick(W, ("directed-name2", j), [nm_, "c", "b"])
+                seq = [["add", d1, nm_, ch.pick(W, ("directed-o1", j), ["chk", "ssk", "dir1", "lit"]), True, None, "set_uri"],
+                       ["add", d2, nm2, ch.pick(W, ("directed-o2", j), ["chk", "dir2", "dir0", "lit2"]), True, None, "set_uri"],
+                       ["move", d1, nm_, d2, nm2, ch.pick(W, ("directed-ow", j), [False, False, "only-files"])]]
+            else:
+                other = unicodedata.normalize("NFD", nm_) if unicodedata.normalize("NFC", nm_) == nm_ else unicodedata.normalize("NFC", nm_)
+                if other == nm_:
+                    other = nm_ + "\u0301"
+                seq = [["add", d1, nm_, ch.pick(W, ("directed-o1", j), ["chk", "ssk", "dir1", "lit"]), True, None, "set_uri"],
+                       ["move", d1, nm_, d1 if what == "respell" else d2, other, ch.pick(W, ("directed-ow", j), [True, False, "only-files"])]]
+            ops[at:at] = seq
     if focus in ("C17", "C19"):
         # a new directory created from another directory's listing (what "cp -r" and the web API's t=mkdir-with-children do)
         for j in range(ch.randint(W, "ncopydir", 1 if focus == "C17" else 0, 2)):
